@@ -427,6 +427,12 @@ def rule_r3(ctx, rep):
     rep.floor("namespace hand-overs in add_child", 1)
 
 
+# R1-R3 read the shape of the namespace mutators (copy-on-write before a write, identity test, child walk, hand-over guard); R4 folds the three
+# operations under every sharing pattern
+FOLDS = {"R4": {"count": "namespace verdicts", "min": 132, "about": ("add_namespace", "remove_namespace", "add_child")}}
+SUBORDINATE = {"R1": "R4", "R2": "R4", "R3": "R4"}
+
+
 def run(ctx, rep):
     rep.explanation = (
         "namespace dicts are shared between nodes on purpose, so every in-place mutation of a node's map in the operations of "
@@ -440,4 +446,4 @@ def run(ctx, rep):
     from .c13_worlds import rule_r4
     for name, fn in (("R1", rule_r1), ("R2", rule_r2), ("R3", rule_r3), ("R4", rule_r4)):
         if only in (None, name):
-            fn(ctx, rep)
+            rep.guarded(name, fn, ctx, rep)
